@@ -184,6 +184,11 @@ def join_component_view(component, view):
     """
     if view is None:
         return component
+    if isinstance(view, np.ndarray) or (isinstance(view, tuple) and len(view) == 1):
+        # An array is a single index (e.g. a boolean mask) rather than a
+        # sequence of indices, and the item of a length-1 tuple would be read
+        # back on its own by split_component_view, so we keep these whole.
+        return (component, view)
     result = [component]
     try:
         result.extend(view)
